@@ -97,7 +97,7 @@ class Hist(p_c01.Part):
 
     @staticmethod
     def PROJECT(v, c, o):
-        (cache, lookup, reqs, watched, acks, table, closed, s1, s2, s3, s4, s10, s19) = v
+        (cache, lookup, reqs, watched, acks, table, closed, s1, s2, s3, s4, s10, s19, sfull) = v
         return (lookup and cache and watched, s10)
 
     @classmethod
